@@ -1,4 +1,4 @@
-CONSTANTS MaxLen = 7  MaxByte = 3  MaxPasses = 2  MaxDepth = 1  Bug = ""
+CONSTANTS MaxLen = 6  MaxByte = 5  MaxPasses = 2  MaxDepth = 1  Bug = ""
 INIT Init
 NEXT Next
 INVARIANT Robust
